@@ -108,6 +108,7 @@ func otTagsFromLanguage(langStr string) []tables.Tag {
 
 	// find a language matching in the first component.
 	s := strings.IndexByte(langStr, '-')
+	usesExtlang := false
 	if s != -1 && len(langStr) >= 6 {
 		extlangEnd := strings.IndexByte(langStr[s+1:], '-')
 		// if there is an extended language tag, use it.
@@ -117,6 +118,7 @@ func otTagsFromLanguage(langStr string) []tables.Tag {
 		}
 		if ref == 3 && isAlpha(langStr[s+1]) {
 			langStr = langStr[s+1:]
+			usesExtlang = true
 		}
 	}
 
@@ -136,7 +138,7 @@ func otTagsFromLanguage(langStr string) []tables.Tag {
 	if s == -1 {
 		s = len(langStr)
 	}
-	if s == 3 {
+	if s == 3 && !usesExtlang { // upstream: s - lang_str is -1 after the move to the extlang
 		// assume it's ISO-639-3 and upper-case and use it.
 		return []tables.Tag{ot.NewTag(langStr[0], langStr[1], langStr[2], ' ') & ^tables.Tag(0x20202000)}
 	}
